@@ -1,6 +1,6 @@
 (* C07 property theorems. This file contains only statements closed by
    [exact lemma] and Print Assumptions. *)
-From V Require Import Common.Base C07.Vlq C07.SpecMap C07.Mappings C07.VlqProofs C07.MappingsProofs C07.FindProofs C07.JoinProofs.
+From V Require Import Common.Base Common.Utf8 C07.LineCol C07.Builder C07.BuilderProofs C07.Vlq C07.SpecMap C07.Mappings C07.VlqProofs C07.MappingsProofs C07.FindProofs C07.JoinProofs.
 
 (* encodeVLQ/DecodeVLQ round trip, every integer, arbitrary trailing bytes *)
 Theorem vlq_roundtrip : forall v rest, DecodeVLQ (encodeVLQ v ++ rest) = Some (v, rest).
@@ -55,3 +55,14 @@ Theorem join_decodes : forall ops0 k gc si ol oc nm rest start,
                     ++ rebase (gcol start) (sidx start) (oname start) true ops) 0).
 Proof. exact join_decodes_all. Qed.
 Print Assumptions join_decodes.
+
+(* every chunk the ChunkBuilder can produce (any line tables, any sequence of
+   AddSourceMapping calls with any output text, then GenerateChunk) carries a
+   mappings string that is well-formed under the v3 semantics and sorted by
+   generated position *)
+Theorem builder_sorted : forall ts cover evs b fin,
+  run_builder ts (bst0 cover) evs = Some b ->
+  let '(data, _, _, _, _, _) := GenerateChunk b fin in
+  exists l, spec_decode data = Some l /\ sorted_abs l = true.
+Proof. exact builder_sorted_all. Qed.
+Print Assumptions builder_sorted.
